@@ -398,60 +398,88 @@ def _defaults_tail(E, case, objs):
     return tail
 
 
+def _run_stream(E, res, limit):
+    out = []
+    try:
+        st = E.stm.stream(res)
+    except Exception as e:
+        return [('raise', type(e).__name__)]
+    for _ in range(limit):
+        try:
+            out.append(('ok', st.next()))
+        except E.stm.StopStream:
+            out.append(('stop',))
+            break
+        except Exception as e:
+            out.append(('raise', type(e).__name__))
+            break
+    return out
+
+
+def _run_embed(E, res, limit):
+    out = []
+    try:
+        g = E.stm.embed(res)
+    except Exception as e:
+        return [('raise', type(e).__name__)]
+    for _ in range(limit):
+        try:
+            out.append(('ok', next(g)))
+        except StopIteration:
+            out.append(('stop',))
+            break
+        except Exception as e:
+            out.append(('raise', type(e).__name__))
+            break
+    return out
+
+
 def observe(E, case, objs):
-    """Compose through the library and evaluate the composed object."""
+    """Compose once through the library, then evaluate the *same* composed
+    object: -> [(kind suffix, outcomes)], one entry per evaluation pass.
+
+    Functions and patterns are re-evaluable (a function is called again at
+    the same points; every stream of a pattern starts from the beginning), so
+    they are evaluated repeatedly and every pass must give the kernel result:
+    state kept in the composed object between evaluations is a violation.
+    A composed *stream* is consumed by its evaluation: one pass."""
     fam = result_family(case['k'])
     npoints = 3
+    ev = case.get('ev')
+    if fam == 'func':
+        sufs = ['', '-reeval']
+    elif fam == 'strm' and ev == 'multi':
+        sufs = ['', '-reeval', '-embed', '-embed-reeval']
+    elif fam == 'strm' and ev == 'embed':
+        sufs = ['-embed']
+    else:
+        sufs = ['']
     try:
         res = _invoke(E, case, objs)
     except Exception as e:
         o = ('raise', type(e).__name__)
-        if fam == 'func':
-            return [o] * npoints
-        return [o]
+        return [(s, [o] * (npoints if fam == 'func' else 1)) for s in sufs]
     if fam == 'func':
         if not callable(res):
-            return [('ok', 'not-callable:' + type(res).__name__)] * npoints
-        return [lr.apply(res, [k]) for k in range(npoints)]
+            o = ('ok', 'not-callable:' + type(res).__name__)
+            return [(s, [o] * npoints) for s in sufs]
+        return [(s, [lr.apply(res, [k]) for k in range(npoints)])
+                for s in sufs]
     if fam == 'strm':
         limit = max(len(v) for v in case['v']) + 2
-        out = []
-        if case.get('ev') == 'embed':
-            try:
-                g = E.stm.embed(res)
-            except Exception as e:
-                return [('raise', type(e).__name__)]
-            for _ in range(limit):
-                try:
-                    out.append(('ok', next(g)))
-                except StopIteration:
-                    out.append(('stop',))
-                    break
-                except Exception as e:
-                    out.append(('raise', type(e).__name__))
-                    break
-            return out
-        try:
-            s = E.stm.stream(res)
-        except Exception as e:
-            return [('raise', type(e).__name__)]
-        for _ in range(limit):
-            try:
-                out.append(('ok', s.next()))
-            except E.stm.StopStream:
-                out.append(('stop',))
-                break
-            except Exception as e:
-                out.append(('raise', type(e).__name__))
-                break
-        return out
+        passes = []
+        for s in sufs:
+            _seed(E)
+            run = _run_embed if 'embed' in s else _run_stream
+            passes.append((s, run(E, res, limit)))
+        return passes
     if fam == 'list':
-        return [('ok', tolist(res))]
+        return [('', [('ok', tolist(res))])]
     if fam == 'opd':
         if isinstance(res, E.Operand):
             res = res.value
-        return [('ok', res)]
-    return [('ok', res)]
+        return [('', [('ok', res)])]
+    return [('', [('ok', res)])]
 
 
 def expected(E, case, kern):
@@ -496,8 +524,6 @@ def lift_kind(case):
         if fam == 'pclist':
             fam = f"{case['e']}-pclist"
         k = f"lift-nar-{fam}-args[{','.join(args) or 'num'}]"
-    if case.get('ev') == 'embed':
-        k += '-embed'
     return k
 
 
@@ -525,9 +551,9 @@ def check_lift(case):
         tail = _defaults_tail(E, case, objs)
         _seed(E)
         try:
-            obs = observe(E, case, objs)
+            passes = observe(E, case, objs)
         except CallBudgetExceeded:
-            obs = [('raise', 'CallBudgetExceeded')]
+            passes = [('', [('raise', 'CallBudgetExceeded')])]
         exps = []
         draws0 = E.Rng.draws
         for i, kern in enumerate(kerns):
@@ -539,11 +565,25 @@ def check_lift(case):
             _seed(E)
             exps.append(expected(E, case, kern))
         rnd = E.Rng.draws != draws0
-    ok = any(lr.outcomes_match(e, obs, not rnd) for e in exps)
+    # every pass must equal the result of one acceptable kernel; report the
+    # first failing pass of the kernel that gets furthest.
+    best = None
+    for e in exps:
+        fail = next((i for i, (suf, o) in enumerate(passes)
+                     if not lr.outcomes_match(e, o, not rnd)), None)
+        if fail is None:
+            best = None
+            break
+        if best is None or fail > best[0]:
+            best = (fail, e)
     dis = []
-    if not ok:
-        dis.append((lift_kind(case), _jsonable(exps[0]), _jsonable(obs),
-                    f"{len(kerns)} acceptable kernel(s); random={rnd}"))
+    if best is not None:
+        suf, o = passes[best[0]]
+        dis.append((lift_kind(case) + suf, _jsonable(best[1]), _jsonable(o),
+                    f"evaluation pass {best[0] + 1} of {len(passes)} on the "
+                    f"same composed object; {len(kerns)} acceptable "
+                    f"kernel(s); random={rnd}"))
+    obs = [o for suf, o in passes]
     vs = case['v']
     mixed = False
     for k in range(max(len(v) for v in vs)):
@@ -555,7 +595,7 @@ def check_lift(case):
     raises = any(o[0] == 'raise' for o in exps[0])
     nontrivial = mixed or len(seqlens) > 1 or raises
     if rnd:
-        outcome = [case['op'], [o[0] for o in obs]]
+        outcome = [case['op'], [[o[0] for o in p] for p in obs]]
     else:
         outcome = _jsonable(obs)
     return dis, nontrivial, outcome
@@ -728,10 +768,16 @@ def _left_plain_kinds(right):
 
 
 def _evs(kinds):
-    """Evaluation modes: a composed *pattern* is evaluated as a stream and
-    through embedding; everything else has one mode."""
+    """Evaluation modes.  A composed *pattern* built from patterns and
+    numbers only is a re-usable stream factory: 'multi' = the same object is
+    evaluated as a stream twice and through embedding twice.  When a Routine
+    is among the operands the result is consumed by evaluation: one fresh
+    object per mode.  Everything else has one mode (functions are always
+    called twice at every point)."""
     if any(k in PAT for k in kinds) and not any(k in FUNC for k in kinds):
-        return [None, 'embed']
+        if any(k in STRM for k in kinds):
+            return [None, 'embed']
+        return ['multi']
     return [None]
 
 
@@ -1149,7 +1195,13 @@ def standalone(case, exp=None):
         call = f"utl.{f}({op}, {', '.join(args)})"
     fam = result_family(case['k'])
     if fam == 'func':
-        show = 'print([res(k) for k in range(3)])'
+        show = ('print([res(k) for k in range(3)])\n'
+                'print([res(k) for k in range(3)], "(same again)")')
+    elif fam == 'strm' and case.get('ev') == 'multi':
+        show = ('print(list(stream(res)))\n'
+                'print(list(stream(res)), "(same again)")\n'
+                'print(list(embed(res)), "(same again)")\n'
+                'print(list(embed(res)), "(same again)")')
     elif fam == 'strm' and case.get('ev') == 'embed':
         show = 'print(list(embed(res)))'
     elif fam == 'strm':
@@ -1187,7 +1239,11 @@ def main(ctx):
         'operand-kind signature x every tuple of start values of the '
         'alphabet (sequence operands are rotations of the alphabet, so every '
         'value pair meets at some evaluation point) x the listed length '
-        'pairs; numeric laws over the full grid. A lifting case is '
+        'pairs; every composed function is called twice at each of 3 points '
+        'and every composed pattern is evaluated on the same object as a '
+        'stream twice and through embedding twice (state kept between '
+        'evaluations is a violation); numeric laws over the full grid. A '
+        'lifting case is '
         'non-trivial when at some evaluation point the operands mix int and '
         'float, two sequence operands have different lengths (wrap-around / '
         'early end actually happens), or the numeric kernel raises at some '
